@@ -5,7 +5,7 @@
    stepping; the other operations by the correspondence run (per-identity ledger on both sides). *)
 From Coq Require Import ZArith List Bool Lia.
 From MV Require Import Ast Eval Scalar Machine Model Policy.
-From MV.Proofs Require Import Arith Logic Prim View OpsLocal Guards Grow Drops DrainIt CapHistory Core Refine Life.
+From MV.Proofs Require Import Arith Logic Prim View OpsLocal Guards Grow Drops DrainIt CapHistory Core Refine Life IntoIt.
 Import ListNotations.
 Open Scope Z_scope.
 
@@ -150,7 +150,7 @@ Theorem C02_drop_destroys_every_element_once :
                  (vec_sentinel s v /\ heap s' = heap s /\ events s' = events s \/
                   exists b bl, vec_at s v b bl /\ nth_error (heap s') b = Some (kill bl) /\
                                exists evs, events s' = EvDealloc (b_size bl) (b_align bl) :: evs))
-    (fun s' => dropped_all s s' v l /\ heap s' = heap s).
+    (fun s' => dropped_all s s' v l /\ heap s' = heap s /\ l <> []).
 Proof. exact drop_vec_abs. Qed.
 
 Example C02_whole_life_hypotheses_satisfiable :
@@ -162,3 +162,22 @@ Proof. split; [reflexivity|]. split; [simpl; lia|simpl; intros; lia]. Qed.
 
 Print Assumptions C02_whole_life_nothing_lost_nothing_destroyed_twice.
 Print Assumptions C02_drop_destroys_every_element_once.
+
+(* Drop for IntoIter at ANY point of its consumption, under ANY set of panicking destructors: every
+   element it still holds is destroyed, nothing else is touched, the name is gone and the block is
+   given back with its layout -- also when a destructor panics (the length is cut to 0 first and the
+   embedded vector is dropped by the unwinding) *)
+Theorem C02_into_iter_drop_any_point :
+  forall cfg, cfg_ok cfg -> needs_drop cfg = true ->
+  forall s it b bl off p,
+  into_inv cfg s it b bl off p ->
+  NoDup (remaining bl p) -> (forall e, In e (remaining bl p) -> ledger s e = Live) ->
+  let Q := fun s' =>
+    (forall e, In e (remaining bl p) -> ledger s' e = Dropped) /\
+    only_changes s s' (remaining bl p) /\
+    nth_error (vecs s') (i_vec it) = Some None /\
+    nth_error (heap s') b = Some (kill (with_hdr bl 0 (h_cap bl) (h_align bl))) /\
+    exists evs, events s' = EvDealloc (b_size bl) (b_align bl) :: evs in
+  post (into_drop cfg it s) (fun _ s' => Q s') Q.
+Proof. exact into_drop_spec. Qed.
+Print Assumptions C02_into_iter_drop_any_point.
